@@ -8,3 +8,6 @@ mod util;
 
 #[cfg(all(kani, feature = "c18"))]
 mod c18_event_id;
+
+#[cfg(all(kani, feature = "c02"))]
+mod c02_predicates;
